@@ -263,11 +263,9 @@ fn fill_banks(
         if let (Some(size), Some(offset)) =
             (bankdef.size, bankdef.output_offset)
         {
-            let highest_position = offset + size - 1;
-
-            if output.len() < highest_position
+            if size > 0 && output.len() < offset + size
             {
-                output.write_bit(highest_position, false);
+                output.write_bit(offset + size - 1, false);
             }
         }
     }
